@@ -200,8 +200,13 @@ func (d *deriver) ifaceOpaque1(i int) (*interp.Opaque, interp.Value) {
 			"Variadic": opaqueMethod(variadic),
 		}}
 		funcs = append(funcs, &interp.Opaque{Kind: "types.Func", ID: fmt.Sprintf("func%d_%d", i, j), GoType: "*go/types.Func", Methods: methods{
-			"Type": opaqueMethod(sig),
-			"Name": opaqueMethod(interp.Tok(me.Name)),
+			"Type":      opaqueMethod(sig),
+			"Signature": opaqueMethod(sig),
+			"Name":      opaqueMethod(interp.Tok(me.Name)),
+			// what go/types prints for a method of a declared interface: (path.Interface).Method
+			"FullName": opaqueMethod(interp.Concat(interp.Lit(fmt.Sprintf("(%s.iface%d).", SrcPkgName, i)), interp.Tok(me.Name))),
+			// whether the method's name is exported is not fixed by the environment
+			"Exported": opaqueMethod(&interp.Unknown{Why: fmt.Sprintf("exported(%s)", me.Name)}),
 		}})
 	}
 	nm := int64(len(funcs))
